@@ -5,7 +5,7 @@ BS = [('0', '0'), ('SKIP', 'F_SKIP'), ('DIR', 'F_DIR'), ('SYNC', 'F_SYNC'), ('SY
       ('SYNC+SKIP', 'F_SYNC|F_SKIP'), ('SYNC+DIR', 'F_SYNC|F_DIR')]
 CB = [('0', '0'), ('SKIP', 'F_SKIP'), ('DIR', 'F_DIR'), ('OBO', 'F_OBO'), ('OBO+SKIP', 'F_OBO|F_SKIP'), ('OBO+DIR', 'F_OBO|F_DIR')]
 CALLER = {0: 'ext', 1: 'w0', 2: 'wlast'}
-NOTRUN = {0: 'allrun', 1: 't0-notstarted', 2: 'tlast-detached', 3: 't0-was-the-caller', 4: 'all-in-stop-hook', 5: 'caller-queue-full'}
+NOTRUN = {0: 'allrun', 1: 't0-notstarted', 2: 'tlast-detached', 3: 't0-was-the-caller', 4: 'all-in-stop-hook', 5: 'caller-queue-full', 6: 'caller-detached-itself', 7: 'tlast-busy-detached-from-outside'}
 
 
 def variants():
@@ -22,7 +22,11 @@ def variants():
                     continue            # documented: a pool thread cannot wait synchronously for itself
                 if W == 16 and fl[0] not in ('0', 'SYNC', 'SKIP', 'OBO', 'SYNC+DIR'):
                     continue
-                for notrun in (0, 1, 2, 3, 4, 5):
+                for notrun in (0, 1, 2, 3, 4, 5, 6, 7):
+                    if notrun == 6 and (caller == 0 or api != 0 or W not in (2, 3) or fl[0] not in ('0', 'SKIP', 'SYNC+SKIP')):
+                        continue        # a pool thread that has just detached itself broadcasts (no self-direct forms: nothing says what a direct call to oneself means then)
+                    if notrun == 7 and (caller == 2 or W not in (2, 3)):
+                        continue
                     if notrun == 5 and (caller != 1 or W not in (2, 3)):
                         continue        # a pool thread with a really full queue broadcasts (the default schedule decides where it is full)
                     if notrun == 4 and (caller != 0 or api != 0 or W not in (2, 3)):
